@@ -388,7 +388,7 @@ def relock_all(seed=0, only=None):
                         continue
                     key = (q, ci, json.dumps(case, sort_keys=True, default=str))
                     users.setdefault(key, []).append(pid)
-                    tasks[key] = (q, ci, {'timeout': 20, 'retry': 90, 'seed': 0, 'procs': 8, 'case': case, 'kinds': None, 'want_hash': True})
+                    tasks[key] = (q, ci, {'timeout': 20, 'retry': 90, 'seed': 0, 'procs': 4, 'case': case, 'kinds': None, 'want_hash': True})
     keys = sorted(tasks, key=lambda k: (0 if 'LGANM.sample' in k[0] or 'ANM.sample' in k[0] else 1, k))      # long ones first
     lock = load_json(LOCK, {})
     if only:
@@ -398,7 +398,7 @@ def relock_all(seed=0, only=None):
     heads = set()
     stats = {}
     t0 = time.time()
-    outs = isolate.run([tasks[k] for k in keys], lambda: (prog, db), jobs=6, progress=lambda i, n: print('  [%d/%d] %s %.0fs' % (i, n, keys[i - 1][0], time.time() - t0), flush=True))
+    outs = isolate.run([tasks[k] for k in keys], lambda: (prog, db), jobs=4, progress=lambda i, n: print('  [%d/%d] %s %.0fs' % (i, n, keys[i - 1][0], time.time() - t0), flush=True))
     for key, out in zip(keys, outs):
         q = key[0]
         if out.get('error'):
